@@ -22,7 +22,7 @@
    outcome of every point against go/types (Info.Instances of a one-line call) - the fragment's
    reference semantics *is* go/types - and replays it through the real CodeBuilder. *)
 EXTENDS Integers, Sequences, FiniteSets, TLC, Json
-CONSTANTS SigIds, Forms, ExplNames, MaxExpl, MaxVariadic
+CONSTANTS SigIds, Forms, ExplNames, MaxExpl, MaxVariadic, FvSigs
 
 (* ---- types ---- *)
 B(n) == [k |-> "b", n |-> n]
@@ -74,6 +74,9 @@ Sig(i) ==
     [] i = 12 -> Sg(<<"any">>, <<TP(1), TP(1)>>, FALSE)                                   \* Same[T any](a, b T)
     [] i = 13 -> Sg(<<"any">>, <<FnT(<<TP(1)>>, TP(1)), TP(1)>>, FALSE)                   \* Fn[T any](f func(T) T, x T)
     [] i = 14 -> Sg(<<"core", "num">>, <<TP(1), TP(2)>>, FALSE)                           \* SlE[S ~[]E, E int|float64](s S, e E)
+    [] i = 15 -> Sg(<<"any", "any">>, <<TP(2)>>, TRUE)                                    \* Collect[R, T any](xs ...T)   also reachable as XGox_ function: Collect(R, xs...)
+    [] i = 16 -> Sg(<<"any", "any">>, <<TP(2)>>, FALSE)                                   \* Cast[R, T any](x T)
+    [] i = 17 -> Sg(<<"any">>, <<>>, FALSE)                                               \* Mk[R any]()
 NTP(s) == Len(s.tps)
 
 (* ---- unification ---- *)
@@ -102,23 +105,27 @@ UnifySeq(bd, xs, ys, j, ne) == IF j > Len(xs) THEN bd ELSE UnifySeq(Unify(bd, xs
 
 (* ---- the inference steps ---- *)
 \* parameter type of argument position j (variadic tail repeats the last parameter)
-ParAt(s, j) == IF s.var /\ j >= Len(s.ps) THEN s.ps[Len(s.ps)] ELSE s.ps[j]
-ArityOK(s, n) == IF s.var THEN n >= Len(s.ps) - 1 ELSE n = Len(s.ps)
-RECURSIVE TypedArgs(_, _, _, _, _)
-TypedArgs(bd, s, args, j, ne) ==
+\* ell: the call is f(a, xs...): the last argument stands for the whole variadic parameter
+ParAtE(s, j, ell) == IF ell /\ j = Len(s.ps) THEN SlT(s.ps[j]) ELSE IF s.var /\ j >= Len(s.ps) THEN s.ps[Len(s.ps)] ELSE s.ps[j]
+ParAt(s, j) == ParAtE(s, j, FALSE)
+ArityOKE(s, n, ell) == IF s.var THEN (IF ell THEN n = Len(s.ps) ELSE n >= Len(s.ps) - 1) ELSE (~ell /\ n = Len(s.ps))
+ArityOK(s, n) == ArityOKE(s, n, FALSE)
+RECURSIVE TypedArgs(_, _, _, _, _, _)
+TypedArgs(bd, s, args, j, ne, ell) ==
   IF j > Len(args) \/ Failed(bd) THEN bd
-  ELSE IF IsTyped(args[j]) /\ HasTP(ParAt(s, j)) THEN TypedArgs(Unify(bd, ParAt(s, j), FormType(args[j]), FALSE, ne), s, args, j + 1, ne)
-  ELSE TypedArgs(bd, s, args, j + 1, ne)
+  ELSE IF IsTyped(args[j]) /\ HasTP(ParAtE(s, j, ell)) THEN TypedArgs(Unify(bd, ParAtE(s, j, ell), FormType(args[j]), FALSE, ne), s, args, j + 1, ne, ell)
+  ELSE TypedArgs(bd, s, args, j + 1, ne, ell)
 \* S ~[]E is type parameter 1 with element type parameter 2 in the signatures that use it
 CoreStep(bd, s, ne) ==
   IF Failed(bd) \/ s.tps[1] # "core" \/ bd[1] = NoT THEN bd
   ELSE Unify(bd, SlT(TP(2)), bd[1], FALSE, ne)
 KindRank(f) == CASE f = "c1" -> 1 [] f = "c15" -> 2 [] OTHER -> 0
-UntypedFor(s, args, i) == {j \in 1..Len(args) : UntypedConst(args[j]) /\ ParAt(s, j) = TP(i)}
-UntypedStep(bd, s, args) ==
+UntypedForE(s, args, i, ell) == {j \in 1..Len(args) : UntypedConst(args[j]) /\ ParAtE(s, j, ell) = TP(i)}
+UntypedFor(s, args, i) == UntypedForE(s, args, i, FALSE)
+UntypedStepE(bd, s, args, ell) ==
   IF Failed(bd) THEN bd
   ELSE LET pick(i) ==
-             LET U == UntypedFor(s, args, i) IN
+             LET U == UntypedForE(s, args, i, ell) IN
              IF bd[i] # NoT \/ U = {} THEN bd[i]
              ELSE IF \A j \in U : args[j] = "cs" THEN TStr
              ELSE IF \E j \in U : args[j] = "cs" THEN [k |-> "mixed"]
@@ -149,34 +156,60 @@ AssignableTo(f, p) ==
          [] f = "cs" -> Under(p) = TStr
          [] f = "nil" -> Under(p).k \in {"sl", "map", "ptr", "fn"}
          [] OTHER -> FALSE
-Infer(s, expl, args) ==
-  IF ~ArityOK(s, Len(args)) THEN Fail
+InferE(s, expl, args, ell) ==
+  IF ~ArityOKE(s, Len(args), ell) THEN Fail
   ELSE LET bd0 == [i \in 1..NTP(s) |-> IF i <= Len(expl) THEN expl[i] ELSE NoT]
-           bd1 == TypedArgs(bd0, s, args, 1, Len(expl))
+           bd1 == TypedArgs(bd0, s, args, 1, Len(expl), ell)
            bd2 == CoreStep(bd1, s, Len(expl))
-           bd3 == UntypedStep(bd2, s, args) IN
+           bd3 == UntypedStepE(bd2, s, args, ell) IN
        IF Failed(bd3) THEN Fail
        ELSE IF ~AllBound(bd3, s) THEN Fail
        ELSE IF \E i \in 1..NTP(s) : ~Satisfies(bd3, s, i) THEN Fail
-       ELSE IF \E j \in 1..Len(args) : ~AssignableTo(args[j], Subst(ParAt(s, j), bd3)) THEN Fail
+       ELSE IF \E j \in 1..Len(args) : ~AssignableTo(args[j], Subst(ParAtE(s, j, ell), bd3)) THEN Fail
        ELSE bd3
+Infer(s, expl, args) == InferE(s, expl, args, FALSE)
+
+(* ---- a generic function value (with an explicit prefix) used where a function type is expected ---- *)
+\* the remaining type arguments come from unifying the function's parameter and result types with the target's (exactly)
+FSg(tps, ps, r) == [tps |-> tps, ps |-> ps, r |-> r]
+FSig(i) == CASE i = 1 -> FSg(<<"any", "any">>, <<TP(2)>>, TP(1))                      \* Conv[To, From any](From) To
+             [] i = 2 -> FSg(<<"any">>, <<TP(1)>>, TP(1))                              \* Same1[T any](T) T
+             [] i = 3 -> FSg(<<"any", "any">>, <<TP(1)>>, TP(2))                       \* Map1[T, U any](T) U
+             [] i = 4 -> FSg(<<"comparable", "any">>, <<TP(1), TP(2)>>, TP(2))          \* PairV[K comparable, V any](K, V) V
+             [] i = 5 -> FSg(<<"num">>, <<SlT(TP(1))>>, TP(1))                         \* SumS[T int|float64]([]T) T
+Targets == {FnT(<<TInt>>, TStr), FnT(<<TInt>>, TInt), FnT(<<TStr>>, TInt), FnT(<<TInt, TStr>>, TStr), FnT(<<SlT(TInt)>>, TInt), FnT(<<SlT(TStr)>>, TStr), FnT(<<MySl>>, TInt)}
+InferFV(f, expl, target) ==
+  IF Len(f.ps) # Len(target.ps) THEN Fail
+  ELSE LET bd0 == [i \in 1..Len(f.tps) |-> IF i <= Len(expl) THEN expl[i] ELSE NoT]
+           bd1 == UnifySeq(bd0, f.ps, target.ps, 1, Len(f.tps))          \* explicit arguments are never re-bound: treat all as fixed once bound (exact mode)
+           bd2 == Unify(bd1, f.r, target.r, TRUE, Len(f.tps)) IN
+       IF Failed(bd2) \/ \E i \in 1..Len(f.tps) : bd2[i] = NoT THEN Fail
+       ELSE IF \E i \in 1..Len(f.tps) : ~Satisfies(bd2, [tps |-> f.tps], i) THEN Fail
+       ELSE bd2
 
 (* ---- laws checked by TLC on every point ---- *)
-VARIABLE pt
+VARIABLES pt, ell
 RECURSIVE SeqsUpTo(_, _)
 SeqsUpTo(A, n) == IF n = 0 THEN {<<>>} ELSE LET shorter == SeqsUpTo(A, n - 1) IN shorter \cup {Append(q, x) : q \in {r \in shorter : Len(r) = n - 1}, x \in A}
 Min(a, b) == IF a < b THEN a ELSE b
 ArgLists(s) == LET lo == IF s.var THEN Len(s.ps) - 1 ELSE Len(s.ps)
                    hi == IF s.var THEN Len(s.ps) - 1 + MaxVariadic ELSE Len(s.ps) IN
                {q \in SeqsUpTo(Forms, hi) : Len(q) >= lo}
-Init == pt \in UNION {{[sig |-> i, expl |-> e, args |-> a] : e \in SeqsUpTo(ExplTypes, Min(MaxExpl, NTP(Sig(i)))), a \in ArgLists(Sig(i))} : i \in SigIds}
-Next == UNCHANGED pt
-Res == Infer(Sig(pt.sig), pt.expl, pt.args)
+EllOK(s, a) == s.var /\ Len(a) = Len(s.ps) /\ a[Len(a)] \in {"vsl", "vmysl", "vslf"}
+CallPoints == UNION {{[kind |-> "call", sig |-> i, expl |-> e, args |-> a] :
+                        e \in SeqsUpTo(ExplTypes, Min(MaxExpl, NTP(Sig(i)))), a \in ArgLists(Sig(i))} : i \in SigIds}
+FvPoints == IF FvSigs = {} THEN {} ELSE
+            UNION {{[kind |-> "fv", sig |-> i, expl |-> e, target |-> t] : e \in SeqsUpTo(ExplTypes, Len(FSig(i).tps)), t \in Targets} : i \in FvSigs}
+Init == /\ pt \in CallPoints \cup FvPoints
+        /\ ell \in (IF pt.kind = "call" /\ EllOK(Sig(pt.sig), pt.args) THEN BOOLEAN ELSE {FALSE})
+Next == UNCHANGED <<pt, ell>>
+Res == IF pt.kind = "fv" THEN InferFV(FSig(pt.sig), pt.expl, pt.target) ELSE InferE(Sig(pt.sig), pt.expl, pt.args, ell)
+NTPof == IF pt.kind = "fv" THEN Len(FSig(pt.sig).tps) ELSE NTP(Sig(pt.sig))
 \* the explicit prefix is respected; the result satisfies the constraints; substitution is idempotent (no type parameter left)
 ExplicitRespected == ~Failed(Res) => \A i \in 1..Len(pt.expl) : Res[i] = pt.expl[i]
-InferredSatisfies == ~Failed(Res) => \A i \in 1..NTP(Sig(pt.sig)) : Satisfies(Res, Sig(pt.sig), i) /\ ~HasTP(Res[i])
+InferredSatisfies == ~Failed(Res) => \A i \in 1..NTPof : Satisfies(Res, IF pt.kind = "fv" THEN [tps |-> FSig(pt.sig).tps] ELSE Sig(pt.sig), i) /\ ~HasTP(Res[i])
 \* unification does not depend on the order of the arguments for the symmetric signature Same[T](a, b T), up to the choice named/literal
-Symmetric == (pt.sig = 12 /\ Len(pt.args) = 2) =>
+Symmetric == (pt.kind = "call" /\ pt.sig = 12 /\ Len(pt.args) = 2 /\ ~ell) =>
                Failed(Res) = Failed(Infer(Sig(12), pt.expl, <<pt.args[2], pt.args[1]>>))
 RECURSIVE TypeStr(_)
 RECURSIVE Join(_, _)
@@ -185,6 +218,8 @@ TypeStr(t) == CASE t.k = "b" -> t.n [] t.k = "n" -> "ov." \o t.n [] t.k = "sl" -
                 [] t.k = "map" -> "map[" \o TypeStr(t.key) \o "]" \o TypeStr(t.v)
                 [] t.k = "fn" -> "func(" \o Join([j \in 1..Len(t.ps) |-> TypeStr(t.ps[j])], 1) \o ") " \o TypeStr(t.r)
                 [] OTHER -> "?"
-Emit == PrintT(ToJson([sig |-> pt.sig, expl |-> [j \in 1..Len(pt.expl) |-> TypeStr(pt.expl[j])], args |-> pt.args,
-                       ok |-> ~Failed(Res), targs |-> IF Failed(Res) THEN <<>> ELSE [i \in 1..NTP(Sig(pt.sig)) |-> TypeStr(Res[i])]]))
+Emit == PrintT(ToJson([kind |-> pt.kind, sig |-> pt.sig, expl |-> [j \in 1..Len(pt.expl) |-> TypeStr(pt.expl[j])],
+                       args |-> IF pt.kind = "fv" THEN <<>> ELSE pt.args, ell |-> ell,
+                       target |-> IF pt.kind = "fv" THEN TypeStr(pt.target) ELSE "",
+                       ok |-> ~Failed(Res), targs |-> IF Failed(Res) THEN <<>> ELSE [i \in 1..NTPof |-> TypeStr(Res[i])]]))
 =============================================================================
